@@ -407,6 +407,30 @@ KERNELS = [
          subst={}, params="", obl="", call="", model="3", imports=["Model.Py"], unfold=[]),
     dict(name="NakAdvance", props=["C12", "C15"], file="_rpc/_bind.py", func="BindNak._unpack", loc=('slice_lower_n', 'view', 1), typ="Nat",
          subst={}, params="", obl="", call="", model="2", imports=["Model.Py"], unfold=[]),
+    # where `Floor.unpack` reads (lhs up to lhs_len + 2, the rhs length word, the rhs) and how far the tower decoders of `EptMap.unpack` and
+    # `EptMapResult.unpack` move (header words, 14 octets of tower header, each floor = lhs + rhs + 5, the referent ids 8 per tower)
+    dict(name="FloorLhsEnd", props=["C12", "C18"], file="_epm.py", func="Floor.unpack", loc=('slice_upper_n', 'view', 1), typ="Nat",
+         subst={'lhs_len': 'n'}, params="(n : Nat)", obl="(n : Nat)", call="n", model="n + 2", imports=["Model.Py"], unfold=[]),
+    dict(name="FloorOffset", props=["C12", "C18"], file="_epm.py", func="Floor.unpack", loc=('assign', 'offset'), typ="Nat",
+         subst={'lhs_len': 'n'}, params="(n : Nat)", obl="(n : Nat)", call="n", model="n + 2", imports=["Model.Py"], unfold=[]),
+    dict(name="FloorRhsLenEnd", props=["C12", "C18"], file="_epm.py", func="Floor.unpack", loc=('slice_upper_n', 'view', 2), typ="Nat",
+         subst={'offset': 'n'}, params="(n : Nat)", obl="(n : Nat)", call="n", model="n + 2", imports=["Model.Py"], unfold=[]),
+    dict(name="FloorRhsEnd", props=["C12", "C18"], file="_epm.py", func="Floor.unpack", loc=('slice_upper_n', 'view', 3), typ="Nat",
+         subst={'offset': 'n', 'rhs_len': 'm'}, params="(n m : Nat)", obl="(n m : Nat)", call="n m", model="n + m + 2", imports=["Model.Py"], unfold=[]),
+    dict(name="EptMapSkipHeader", props=["C12", "C18"], file="_epm.py", func="EptMap.unpack", loc=('slice_lower_n', 'view', 0), typ="Nat",
+         subst={}, params="", obl="", call="", model="32", imports=["Model.Py"], unfold=[]),
+    dict(name="EptMapSkipTowerHeader", props=["C12", "C18"], file="_epm.py", func="EptMap.unpack", loc=('slice_lower_n', 'view', 1), typ="Nat",
+         subst={}, params="", obl="", call="", model="14", imports=["Model.Py"], unfold=[]),
+    dict(name="EptMapFloorAdvance", props=["C12", "C18"], file="_epm.py", func="EptMap.unpack", loc=('slice_lower_n', 'view', 2), typ="Nat",
+         subst={'len(floor.lhs)': 'n', 'len(floor.rhs)': 'm'}, params="(n m : Nat)", obl="(n m : Nat)", call="n m", model="n + m + 5", imports=["Model.Py"], unfold=[]),
+    dict(name="EptResReferents", props=["C12", "C18"], file="_epm.py", func="EptMapResult.unpack", loc=('assign', 'tower_data_offset'), typ="Nat",
+         subst={'tower_count': 'n'}, params="(n : Nat)", obl="(n : Nat)", call="n", model="8 * n", imports=["Model.Py"], unfold=[]),
+    dict(name="EptResSkipHeader", props=["C12", "C18"], file="_epm.py", func="EptMapResult.unpack", loc=('slice_lower_n', 'view', 1), typ="Nat",
+         subst={'tower_data_offset': 'n'}, params="(n : Nat)", obl="(n : Nat)", call="n", model="48 + n", imports=["Model.Py"], unfold=[]),
+    dict(name="EptResSkipTowerHeader", props=["C12", "C18"], file="_epm.py", func="EptMapResult.unpack", loc=('slice_lower_n', 'view', 2), typ="Nat",
+         subst={}, params="", obl="", call="", model="14", imports=["Model.Py"], unfold=[]),
+    dict(name="EptResFloorAdvance", props=["C12", "C18"], file="_epm.py", func="EptMapResult.unpack", loc=('slice_lower_n', 'view', 3), typ="Nat",
+         subst={'len(floor.lhs)': 'n', 'len(floor.rhs)': 'm'}, params="(n m : Nat)", obl="(n m : Nat)", call="n m", model="n + m + 5", imports=["Model.Py"], unfold=[]),
     # how far `VerificationTrailer.unpack` and `Command.unpack` move: past the 8-octet signature, past each command (4 + its value), the value's end
     dict(name="VtSkipSignature", props=["C12"], file="_rpc/_verification.py", func="VerificationTrailer.unpack", loc=("slice_lower_n", "view", 0), typ="Nat",
          subst={}, params="", obl="", call="", model="8", imports=["Model.Py"], unfold=[]),
